@@ -9,7 +9,7 @@ Line protocol of `sqfsmodel c06` (one request per line, one answer line):
                                                              *implementation* trace: specification monitor)
 
 FLAGS  letters of C (chmod) O (chown) X (set-xattr) T (set-times), or `-`
-UPATH  `-` (unpack everything) or hex components joined by `/`
+UPATH  the raw `--unpack-path` argument in hex (`-` = empty); it is canonicalised as options.c does
 NODE   preorder: `K:NAME:PAYLOAD:PERM:UID:GID:MTIME:DEV:XATTRS:NCHILDREN`, K ∈ d f l b c p s, NAME/PAYLOAD hex
        (`-` empty), XATTRS `-` or `khex=vhex,…`; the first node is the image's root (its NAME is ignored: "")
 RPATH / keys  absolute component paths: `/` or `/hex/hex…`
@@ -84,8 +84,13 @@ def parseFlags (s : String) : Option Flags :=
            setXattr := s.toList.contains 'X', setTimes := s.toList.contains 'T' }
   else none
 
-def parseUPath (s : String) : Option (List Bytes) :=
-  if s = "-" then some [] else (s.splitOn "/").mapM fromHex
+/-- options.c `get_path`: the `-u` argument goes through `canonicalize_name`; `none` = "Invalid path", exit.
+    `sqfs_dir_reader_get_full_hierarchy` then walks its non-empty components. -/
+def parseUPath (s : String) : Option (Option (List Bytes)) := do
+  let raw ← fromHex s
+  match canonicalize raw with
+  | none => pure none
+  | some p => pure (some ((splitSlash p).filter (fun c => !c.isEmpty)))
 
 def b2s (b : Bool) : String := if b then "1" else "0"
 
@@ -124,7 +129,7 @@ def errTok : Err → String
 
 def errnoTok : Errno → String
   | .ENOENT => "ENOENT" | .EEXIST => "EEXIST" | .ENOTDIR => "ENOTDIR" | .ELOOP => "ELOOP"
-  | .ENAMETOOLONG => "ENAMETOOLONG" | .EISDIR => "EISDIR" | .EPERM => "EPERM" | .ENXIO => "ENXIO"
+  | .ENAMETOOLONG => "ENAMETOOLONG" | .EISDIR => "EISDIR" | .EPERM => "EPERM" | .ENXIO => "ENXIO" | .EINVAL => "EINVAL"
 
 def statusTok (o : Out) : String :=
   match o.err with | none => "ok" | some e => "err:" ++ errTok e
@@ -225,14 +230,16 @@ def step (line : String) : String :=
   match words line with
   | "plan" :: fl :: up :: toks =>
     (match parseFlags fl, parseUPath up, parseTree toks with
-     | some fl, some up, some t =>
+     | some _, some none, some _ => "invalid-path"
+     | some fl, some (some up), some t =>
        (match planFor fl up t with
         | .error m => m
         | .ok o => statusTok o ++ String.join (o.evs.map (" " ++ evTok ·)))
      | _, _, _ => "bad-op")
   | "exec" :: fl :: up :: toks =>
     (match parseFlags fl, parseUPath up, parseTree toks with
-     | some fl, some up, some t =>
+     | some _, some none, some _ => "invalid-path"
+     | some fl, some (some up), some t =>
        (match planFor fl up t with
         | .error m => m
         | .ok o => doExec o)
